@@ -376,12 +376,19 @@ Definition backend_list (V : store) (lo hi : bytes) (R limit : N) : list kvr * b
   let l := scan_read V lo hi R (if 0 <? limit then limit + 1 else 0) in
   if (0 <? limit) && (limit <? N.of_nat (length l)) then (firstn (N.to_nat limit) l, true) else (l, false).
 
+Fixpoint insert_by {A} (lt : A -> A -> bool) (x : A) (l : list A) : list A :=
+  match l with
+  | [] => [x]
+  | y :: t => if lt y x then y :: insert_by lt x t else x :: l
+  end.
+Definition sort_by {A} (lt : A -> A -> bool) (l : list A) : list A := fold_right (insert_by lt) [] l.
+
 (* one compaction scan of [lo,hi) at revision R with timeout revision tr; a fresh worker (lf reset),
-   the snapshot is what the engine holds in the range when the scan starts *)
+   the snapshot is what the engine holds in the range when the scan starts, in engine order *)
 Definition compact_range (R tr : N) (lo hi : bytes) (d : dst) : dst :=
   let c := mkCfg R true tr 0 in
   let d0 := mkD (d_store d) (d_ghost d) [] (d_oc d) (d_dead d) (d_trace d) in
-  w_d (wloop c (filter (in_range lo hi) (d_store d)) (init_w d0)).
+  w_d (wloop c (sort_by rec_ltb (filter (in_range lo hi) (d_store d))) (init_w d0)).
 
 (* ---------- compaction borders (compact.go:107-127) ---------- *)
 
@@ -389,13 +396,6 @@ Fixpoint last_is (c : N) (b : bytes) : bool :=
   match b with [] => false | [x] => x =? c | _ :: t => last_is c t end.
 
 Definition with_slash (p : bytes) : bytes := if last_is slash p then p else p ++ [slash].
-
-Fixpoint insert_by {A} (lt : A -> A -> bool) (x : A) (l : list A) : list A :=
-  match l with
-  | [] => [x]
-  | y :: t => if lt y x then y :: insert_by lt x t else x :: l
-  end.
-Definition sort_by {A} (lt : A -> A -> bool) (l : list A) : list A := fold_right (insert_by lt) [] l.
 
 (* raw (undecoded) borders; the code sorts the encoded keys *)
 Definition compact_borders (prefix : bytes) (skipped_prefixes : list bytes) : list bytes :=
